@@ -1,6 +1,7 @@
 package main
 
 import (
+	"time"
 	"os"
 	"sync"
 	"bufio"
@@ -168,6 +169,7 @@ type Engine struct {
 	specPaths int
 	capVal    map[string]Val
 	boundedLoops map[string]bool
+	genDeadline  time.Time
 	safetyOff    map[string]bool
 	globalNames map[int64]string
 	opaqueT   map[string]bool // spec functions kept uninterpreted while the current target is verified
